@@ -1,7 +1,7 @@
 #!/bin/bash
-# test every delivered round-4 seed (G/H) that is not yet stored under seeded/
+# test every delivered seed with the given letters (default GH; e.g. IJ) that is not yet stored under seeded/
 cd /verif
-for d in /tmp/breaker/out/C*/[GH]; do
+for d in /tmp/breaker/out/C*/[${1:-GH}]; do
   p=$(basename $(dirname $d)); s=$(basename $d)
   [ -f $d/patch.diff ] && [ -f $d/meta.json ] || continue
   [ -d seeded/$p-$s ] && continue
